@@ -27,6 +27,19 @@ class ExprUnaryModel(ExprModel):
         
         return ret
     
+    def val(self):
+        v = self.expr.val()
+        if self.op == UnaryExprType.Not:
+            if self.expr.width() == 1:
+                # Negation of a condition
+                from vsc.model.value_bool import ValueBool
+                return ValueBool(not bool(v))
+            else:
+                from vsc.model.value_scalar import ValueScalar
+                return ValueScalar((~int(v)) & ((1 << self.expr.width())-1))
+        else:
+            raise Exception("val unimplemented for unary operator %s" % str(self.op))
+    
     def width(self):
         # Currently-supported unary expressions have the 
         # same width as the base expression
